@@ -8,7 +8,7 @@ from props.c02 import bits
 
 PROPS = ('GambitV.Props.C05', 'GambitV.C05')
 TIE = [('GambitV.Tie.Metric', 'GambitV.Tie.Metric')]
-RULE = ('(query signatures, reference signatures, container in {SignatureArray, SignatureList, plain list, HDF5Signatures}, dtype, '
+RULE = ('(query signatures, reference signatures, container in {SignatureArray, SignatureArray window of a larger values array (from_arrays), SignatureList, plain list, HDF5Signatures}, dtype, '
         'chunk size in 1..n+2 or None, ref_indices (None / permutation / with repeats / subset), caller out-buffer (none / contiguous / '
         'strided view with sentinels), threads 1..16) for jaccarddist_matrix; same for jaccarddist_array and jaccarddist_pairwise '
         '(square / condensed, indices, out). The Lean model is instantiated with dist := table of the real two-signature '
@@ -44,6 +44,14 @@ def container(kind, sigs, dt):
 	arrs = [np.array(s, dtype=dt) for s in sigs]
 	if kind == 'array':
 		return SignatureArray(arrs, kspec, dtype=np.dtype(dt)), None
+	if kind == 'subarray':
+		# a SignatureArray that is a window of a larger values array: bounds neither start at 0 nor end at len(values)
+		# (legal under the documented layout values[bounds[i]:bounds[i+1]])
+		pad_l = np.array([3, 5, 8], dtype=dt)
+		pad_r = np.array([1, 2], dtype=dt)
+		values = np.concatenate([pad_l] + arrs + [pad_r]) if arrs else np.concatenate([pad_l, pad_r])
+		bounds = np.cumsum([len(pad_l)] + [len(a) for a in arrs]).astype(np.intp)
+		return SignatureArray.from_arrays(values, bounds, kspec), None
 	if kind == 'siglist':
 		return SignatureList(arrs, kspec, dtype=np.dtype(dt)), None
 	if kind == 'plain':
@@ -92,7 +100,18 @@ def check(ctx, case):
 				for i, s_ in enumerate(cur):
 					if step == 1 and s_ != ss[i]:
 						L[i] = np.array(s_, dtype=dt)
-				if case.get('pairwise'):
+				if case.get('asrefs'):
+					# the mutated list is the *reference* collection
+					qs_ = case['refs'][:2] or [[1, 2]]
+					table = table_of(qs_, cur, dt, dt)
+					if case['asrefs'] == 'array':     # one function per case: consecutive calls see the very same list object
+						res = metric.jaccarddist_array(np.array(qs_[0], dtype=dt), L)
+						lines.append(f'c05.array {nats(table[0])} {nats(np.ascontiguousarray(res).view(np.uint32).tolist())}')
+					else:
+						res = metric.jaccarddist_matrix([np.array(q, dtype=dt) for q in qs_], L, chunksize=case.get('chunk'))
+						out0 = [[0] * len(cur) for _ in qs_]
+						lines.append(f'c05.matrix {len(qs_)} {len(cur)} {natlists(table)} ~ {opt(case.get("chunk"))} {natlists(out0)} {natlists(res.view(np.uint32).tolist())}')
+				elif case.get('pairwise'):
 					table = table_of(cur, cur, dt, dt)
 					res = metric.jaccarddist_pairwise(L)
 					lines.append(f'c05.pairwise {natlists(table)} {nats(range(len(cur)))} 0 {natlists(res.view(np.uint32).tolist()) if len(cur) else "_"}')
@@ -210,7 +229,7 @@ def run(ctx):
 	rng = ctx.rng
 	ncpu = os.cpu_count() or 4
 	tmax = min(16, ncpu)
-	rconts = ['array', 'siglist', 'plain', 'hdf5']
+	rconts = ['array', 'siglist', 'plain', 'subarray', 'hdf5']
 
 	def sub(case, tag):
 		lines, pf = safe_check(check, ctx, case)
@@ -236,10 +255,10 @@ def run(ctx):
 			r = rng.random()
 			dt = rng.choice(['u2', 'u4', 'u8', 'i4', 'i8', 'i2'])
 			threads = rng.choice([1, 2, 3, 4, 7, 8, tmax, rng.randint(1, tmax)])
-			rc = rng.choice(rconts if rng.random() < 0.35 else rconts[:3])
+			rc = rng.choice(rconts if rng.random() < 0.35 else rconts[:4])
 			# an *empty* plain Python list carries no k-mer parameters; SignatureList([]) needs them (observation, DESIGN §4.6):
 			# zero references are generated only for the containers that know their parameters
-			fix_rc = lambda n_items, rc_: ('siglist' if (rc_ == 'plain' and n_items == 0) else rc_)
+			fix_rc = lambda n_items, rc_: ('siglist' if (rc_ in ('plain', 'subarray') and n_items == 0) else rc_)
 			if r < 0.55:
 				nr = rng.choice([0, 1, 2, 3, 5, 8, 13, rng.randint(0, 30)])
 				rs = rand_sigs(rng, nr)
@@ -306,7 +325,7 @@ def run(ctx):
 			for i in rng.sample(range(n), rng.randint(1, n)):
 				ss2[i] = rand_sigs(rng, 1)[0]
 			sub({'kind': 'reuse', 'sigs': ss, 'sigs2': ss2, 'refs': rand_sigs(rng, rng.randint(1, 5)), 'rcont': rng.choice(['array', 'siglist', 'plain']),
-			     'dt': rng.choice(['u4', 'u8']), 'pairwise': rng.random() < 0.4, 'threads': rng.randint(1, tmax)}, 'list-reused-across-calls')
+			     'dt': rng.choice(['u4', 'u8']), 'pairwise': rng.random() < 0.3, 'asrefs': rng.choice([None, 'array', 'matrix']), 'chunk': rng.choice([None, 2, 1000]), 'threads': rng.randint(1, tmax)}, 'list-reused-across-calls')
 		# schedule sampling: the same larger computation repeated under every thread count
 		reps = ctx.q(3, 25)
 		rs = rand_sigs(rng, 300, universe=400)
